@@ -60,7 +60,7 @@ Section Progress.
   Lemma longest_float_bounds : forall n s m k, longest_float n s = Some (m, k) -> 1 <= m <= n.
   Proof.
     induction n as [|n IH]; intros s m k H; [discriminate|].
-    cbn [longest_float] in H. destruct (parse_f64 (firstn (S n) s)) as [[[neg mant] ex]|].
+    cbn [longest_float] in H. destruct (parse_finite (firstn (S n) s)) as [[[neg mant] ex]|].
     - injection H as <- _. lia.
     - apply IH in H. lia.
   Qed.
@@ -85,7 +85,7 @@ Section Progress.
     destruct (lex_newlines s) as [[n0 k0]|] eqn:E5.
     { inversion H; subst. unfold lex_newlines in E5. break_match_hyp E5. inversion E5; subst.
       match goal with H : (_ =? 0) = false |- _ => apply Nat.eqb_neq in H; lia end. }
-    destruct (lex_plural_digit s) as [[n0 k0]|] eqn:E6.
+    destruct (lex_plural_digit u s) as [[n0 k0]|] eqn:E6.
     { inversion H; subst. unfold lex_plural_digit in E6. break_match_hyp E6; inversion E6; subst; lia. }
     destruct (lex_hex_number u s) as [[n0 k0]|] eqn:E7.
     { inversion H; subst. unfold lex_hex_number in E7. break_match_hyp E7; inversion E7; subst; lia. }
@@ -444,7 +444,7 @@ Section Local.
     repeat (match type of H with context [if ?b then _ else _] => destruct b eqn:? end; nlstep_in H;
             try discriminate H).
 
-  Lemma lex_plural_digit_local : local lex_plural_digit /\ bounded lex_plural_digit.
+  Lemma lex_plural_digit_local : local (lex_plural_digit u) /\ bounded (lex_plural_digit u).
   Proof.
     split.
     - intros a r r' _ Hne. destruct a as [|c0 [|c1 [|c2 [|c3 a4]]]]; [contradiction|..];
@@ -877,7 +877,7 @@ Section Local.
     { split; [reflexivity|]. intros n k [= <- <-]. eapply B4; eauto. }
     destruct (lex_newlines (a ++ NL :: r)) as [[n5 k5]|] eqn:E5.
     { split; [reflexivity|]. intros n k [= <- <-]. eapply B5; eauto. }
-    destruct (lex_plural_digit (a ++ NL :: r)) as [[n6 k6]|] eqn:E6.
+    destruct (lex_plural_digit u (a ++ NL :: r)) as [[n6 k6]|] eqn:E6.
     { split; [reflexivity|]. intros n k [= <- <-]. eapply B6; eauto. }
     destruct (lex_hex_number u (a ++ NL :: r)) as [[n7 k7]|] eqn:E7.
     { split; [reflexivity|]. intros n k [= <- <-]. eapply B7; eauto. }
